@@ -11,7 +11,7 @@ def runsOf : Bytes → Nat → Nat → List Run → List Run × Nat
     else if cur > 0 then runsOf r 1 0 (⟨gap, cur⟩ :: acc)
     else runsOf r (gap + 1) 0 acc
 
-/-! ### Delimiter runs of a one-paragraph text over letters, spaces, `*` and `_` (glue for the K stage:
+/-! ### Delimiter runs of a one-paragraph text over letters, spaces, `*`, `_` and (strikethrough on) `~` (glue for the K stage:
 `scan_delims` + `push_delimiter` restricted to ASCII; not part of the proved model) -/
 
 inductive CC | ws | punct | other
@@ -31,17 +31,24 @@ def spanRun (c : UInt8) : Bytes → Nat × Bytes
   | [] => (0, [])
   | b :: r => if b = c then let (n, r') := spanRun c r; (n + 1, r') else (0, b :: r)
 
-def emDelims : Nat → CC → Nat → Bytes → List Delim
+/-- `after_char` of `scan_delims`: with strikethrough / subscript on, `~` is a skip character - the next byte
+    that is not a `~`, white space if there is none. -/
+def afterCC (tilde : Bool) : Bytes → CC
+  | [] => .ws
+  | a :: r => if tilde && a = 0x7E then afterCC tilde r else ccOf a
+
+/-- `prev` = class of the nearest preceding byte that is not a skip character (`before_char`). -/
+def emDelims (tilde : Bool) : Nat → CC → Nat → Bytes → List Delim
   | 0, _, _, _ => []
   | _, _, _, [] => []
   | fuel + 1, prev, pos, b :: r =>
-    if b = 0x2A ∨ b = 0x5F then
+    if b = 0x2A ∨ b = 0x5F ∨ (tilde = true ∧ b = 0x7E) then
       let (n, rest) := spanRun b r
       let len := n + 1
-      let after := match rest with | [] => CC.ws | a :: _ => ccOf a
-      let (co, cc) := flank b prev after
-      (if co || cc then [(⟨b, len, len, co, cc, pos + len⟩ : Delim)] else []) ++ emDelims fuel .punct (pos + len) rest
-    else emDelims fuel (ccOf b) (pos + 1) r
+      let (co, cc) := flank b prev (afterCC tilde rest)
+      (if co || cc then [(⟨b, len, len, co, cc, pos + len⟩ : Delim)] else []) ++
+        emDelims tilde fuel (if b = 0x7E then prev else .punct) (pos + len) rest
+    else emDelims tilde fuel (ccOf b) (pos + 1) r
 
 /-- Decidable form of `C06.noOddMatch` (hypothesis of `emphasis_linear_old_noodd`). -/
 def noOddB (ds : List Delim) : Bool :=
@@ -57,9 +64,9 @@ def handle : Handler := fun cmd args =>
       let b ← hexArg h
       let (rs, tail) := runsOf b 0 0 []
       pure s!"{btStepsPos rs tail} {btSteps rs tail} {totalLen rs + tail}"
-  | "c06em", [h] => some do
+  | "c06em", [tl, h] => some do
       let b ← hexArg h
-      let ds := emDelims b.length .ws 0 b
+      let ds := emDelims (tl == "1") b.length .ws 0 b
       -- <steps of the code as it is> <steps of the loop before /repo commit 9704a60> <delimiters>
       -- <delimiter characters> <no odd match: 1/0>
       pure s!"{optNat (emSteps true ds)} {optNat (emSteps false ds)} {ds.length} {sumCur ds} {if noOddB ds then 1 else 0}"
